@@ -14,8 +14,25 @@ NEED = ['files:']
 CORPUS = 'seq_c13.txt'
 
 
+def big_jobs():
+    """deletion jobs of more than 1000 versions (the cleaner cuts a job into chunks of 1000): a rolled-back
+    transaction, a committed one whose writes supersede each other, a reopen with >1000 superseded versions"""
+    def hx(x):
+        return x.encode().hex()
+    k = hx("k")
+    h1 = ["s 0 %s 300 set" % k, "b 1 RC"] + ["s 1 %s %d set" % (hx("r%d" % (i % 40)), 20000 + i) for i in range(1300)] + \
+         ["r 1", "drain", "gc", "drain", "g 0 %s" % k, "k 0", "tree"]
+    h2 = ["b 1 SER"] + ["s 1 %s %d set" % (k, 30000 + i) for i in range(1150)] + ["c 1", "drain", "gc", "drain", "g 0 %s" % k, "tree"]
+    h3 = ["s 0 %s %d set" % (k, 40000 + i) for i in range(1301)] + ["reopen 0", "drain", "g 0 %s" % k, "tree"]
+    return [h1, h2, h3]
+
+
 def correspond(ctx):
-    return seqprop.correspond(ctx, "C14", PROFILE, QUICK, THOROUGH, WHAT, need_answers=NEED, corpus=CORPUS)
+    res = seqprop.correspond(ctx, "C14", PROFILE, QUICK, THOROUGH, WHAT, need_answers=NEED, corpus=CORPUS)
+    v, n = seqprop.corpus_violations(ctx, "C14", "c14big", big_jobs(), "deletion jobs of more than 1000 versions")
+    res["violations"] = list(res.get("violations", [])) + v
+    res.setdefault("coverage", {})["big_job_lines"] = n
+    return res
 
 
 def search(ctx):
